@@ -139,7 +139,8 @@ def _program(ctx, st, on_stop):
                     ctx.trace('    >>> raise SystemExit(%r) in %s (the manager is stopping already)' % (act[1], st['where']))
                     raise SystemExit(act[1])
             elif act[0] == 'late-exit-nocode':
-                if st['stop_done'] == st['cycle'] and st['eff'][2] is not None:
+                if st['stop_done'] == st['cycle'] and st['eff'][2] is not None and st.get('nocode_exit') != st['cycle']:
+                    st['nocode_exit'] = st['cycle']          # once per cycle: a `stopped` dispatched again (itself a violation) must not make this a loop
                     # a second, code-less exit while the manager is stopping (a clean-up handler ending with sys.exit()): it carries no code,
                     # the code the stop action gave is still the one exit code of the cycle
                     ctx.stat('codeless-exit-while-stopping')
